@@ -1044,7 +1044,44 @@ def r22(ctx):
         raise AnalysisBroken('C14.R22: the store through the state out-parameter was not found')
 
 
+def r23(ctx):
+    ctx.rule('C14.R23', 'an INFO response is assembled from the start of the info buffer: in EnhancedDevice either every store '
+             'that arms a response (m_infoLen = a non-zero constant) or every store that ends one (m_infoLen = 0) is '
+             'accompanied on every path through its function by a store to the write position m_infoPos - a response cut '
+             'short by a reset frame, a newer request or a timeout otherwise leaves the position behind old bytes and the next '
+             'well-formed response is stored behind them and completes early with mixed content', minimum=1)
+    fb = ctx.fb
+    arm, end = [], []
+    for fn in fb.functions:
+        if not fn.blocks or not fn.name.startswith('ebusd::EnhancedDevice::'):
+            continue
+        asg = list(fn.assignments())
+        pos = set(nid for nid, d, rhs, op, lhs in asg if lhs is not None and fn.key(lhs) == 'this.m_infoPos')
+        for nid, d, rhs, op, lhs in asg:
+            if lhs is None or fn.key(lhs) != 'this.m_infoLen' or op != '=' or rhs is None:
+                continue
+            v = fn.val(rhs)
+            if v is None:
+                continue
+            ctx.touch(fn)
+            b, i = fn.pos(nid)
+            acc = not fn.reaches_point(fn.entry, (b, i), pos) or (fn.exit is not None and not fn.reaches_point(b, (fn.exit, 0), pos, start_idx=i + 1))
+            (arm if v else end).append((fn, nid, acc))
+    if not arm or len(end) < 3:
+        raise AnalysisBroken('C14.R23: the stores that arm (%d) / end (%d) an INFO response were not recognised' % (len(arm), len(end)))
+    a_ok = all(a for f, n, a in arm)
+    e_ok = all(a for f, n, a in end)
+    for fn, nid, acc in arm:
+        ctx.ob('C14.R23', fn, nid, acc or e_ok, 'response armed (m_infoLen = %s)' % fn.val(fn.nodes[nid]['rhs']),
+               'write position reset with it (or with every store that ends a response): %s' % (acc or e_ok))
+    if not a_ok and not e_ok:
+        for fn, nid, acc in end:
+            if not acc:
+                ctx.note('C14.R23: m_infoLen = 0 in %s line %d leaves m_infoPos as it is' % (fn.name, fn.line_of(nid)))
+
+
 def run(ctx):
+    r23(ctx)
     r21(ctx)
     r22(ctx)
     r20(ctx)
